@@ -480,7 +480,7 @@ fn run_u(u: &Unit, unit: &Value, only: Option<(&[Tok], usize, &str)>, ctx: &mut 
             fn walk(p: &mut P) {
                 match p {
                     P::Cmd { inner, .. } => custom(inner),
-                    P::Seq(v) | P::Alt(v) | P::Adj(v) => v.iter_mut().for_each(walk),
+                    P::Seq(v) | P::Alt(v) | P::Choice(v) | P::Adj(v) => v.iter_mut().for_each(walk),
                     P::Optional(x, _) | P::Many(x, _) | P::Some_(x, _) | P::Fallback(x, _, _) => walk(x),
                     _ => {}
                 }
